@@ -200,27 +200,91 @@ def replay(ctx, path):
     return 1 if bad else 0
 
 
-BASE = [('base', 60, 600)]
 A_WORLD = ['the TLA+ specification (spec/ArcheAbs.tla) states the intended observable semantics',
            'the harness logs what the public API returns; hooks only read state',
            'histories are bounded by the tier (schedules x steps); universes are small (<= 10 entities)']
 
 
-def c01(ctx):
-    return world_check(ctx, rel_C01, [('base', 60, 600), ('spread', 40, 400)], assumptions=A_WORLD)
+def mc_abs(ctx, locks=False):
+    """Exhaustive model checking of layer 1 for the tier."""
+    if ctx.quick:
+        return [('MCAbs.tla', 'MCAbs_locks.cfg' if locks else 'MCAbs_quick.cfg', dict(timeout=600))]
+    return [('MCAbs.tla', 'MCAbs_thorough.cfg', dict(timeout=3000)), ('MCAbs.tla', 'MCAbs_locks.cfg', dict(timeout=900))]
+
+
+def W(rel, profiles, locks=False, **kw):
+    return lambda ctx: world_check(ctx, rel, profiles, mcs=mc_abs(ctx, locks), assumptions=A_WORLD, **kw)
+
+
+def c04(ctx):
+    """Masks and filters: recorded calls on real values, judged by the set semantics."""
+    mc = [model_check(ctx, 'MCMasks.tla', 'MCMasks.cfg', timeout=600)]
+    results = []
+    nlines = 0
+    samples = []
+    ops = {}
+    viols = []
+    for tags in ('verif', 'verif,tiny'):
+        h = build_harness(ctx, tags)
+        parts = 4 if ctx.quick else NCPU
+        def one(k, tags=tags, h=h, parts=parts):
+            out = ctx.path('masks-%s-%d.ndjson' % (tags.replace(',', '-'), k))
+            r = sh([h, 'masks', '-seed', str(ctx.seed), '-tier', ctx.tier, '-out', out, '-part', str(k), '-parts', str(parts)])
+            if r.returncode != 0:
+                raise Infra('masks mode failed: ' + r.stdout[-2000:])
+            # every partition needs the header line first
+            lines = open(out).read().splitlines()
+            if k != 0:
+                hdr = json.dumps({'op': 'hdr', 'totalBits': 64 if 'tiny' in tags else 256})
+                open(out, 'w').write('\n'.join([hdr] + lines) + '\n')
+            return out
+        files = parallel(one, list(range(parts)))
+        res = parallel(lambda f: validate(ctx, f, module='TraceMasks.tla', cfg='TraceMasks.cfg'), files)
+        for f, r in zip(files, res):
+            nlines += r['lines']
+            results.append(r)
+            for v in r['violations']:
+                viols.append((f, v))
+            for ln in read_lines(f)[1:]:
+                key = ln['op'] + ':' + (ln.get('name') or (ln['f']['k'] if 'f' in ln else ''))
+                ops[key] = ops.get(key, 0) + 1
+                if len(samples) < 3 and ln['op'] != 'hdr' and ops[key] == 1:
+                    samples.append(ln)
+    nchecks = sum(r['checks']['C04'] for r in results)
+    for n, (f, v) in enumerate(viols[:5]):
+        d = os.path.join(VERIF, 'evidence', 'replays')
+        os.makedirs(d, exist_ok=True)
+        p = os.path.join(d, 'C04-%d-%d.json' % (ctx.seed, n))
+        json.dump(read_lines(f)[v['line'] - 1], open(p, 'w'))
+        print('VIOLATION property=C04 replay=%s' % p)
+        print('  check=%s op=%s (recorded call in %s line %d)' % (v['check'], v['op'], os.path.basename(f), v['line']))
+    cov = dict(states=sum(m['distinct'] for m in mc), transitions=sum(m['generated'] for m in mc),
+               traces_validated_against_impl=len(results), evaluations=nchecks, distinct_nontrivial=nlines - len(results),
+               rule='one case = one recorded call group on real ecs.Mask / filter values (all single ids, id pairs '
+                    'against the word-boundary set (quick) or all ids (thorough), complements, random masks of every '
+                    'density, filter terms up to nesting depth 3 over all component subsets); all are distinct by '
+                    'construction; both builds (256 and 64 bits)',
+               samples=samples, model_checking=mc, calls_by_kind=ops, exhaustive=False)
+    write_evidence(ctx, 'model_checking', cov,
+                   ['Masks.tla / ArcheAbs!MatchesMask are the intended set semantics',
+                    'mask contents are read back through Mask.Get (cross-checked by TotalBitsSet, IsZero, Contains)'],
+                   len(viols))
+    ctx.log('%d recorded call groups, %d checks, %d violations' % (nlines, nchecks, len(viols)))
+    return 1 if viols else 0
 
 
 PROPS = {
-    'C01': c01,
-    'C02': lambda ctx: world_check(ctx, rel_C02, [('base', 60, 600), ('churn', 40, 400)], assumptions=A_WORLD),
-    'C03': lambda ctx: world_check(ctx, rel_C03, [('base', 60, 600), ('query', 40, 400)], assumptions=A_WORLD),
-    'C05': lambda ctx: world_check(ctx, rel_C05, [('base', 60, 600), ('relations', 40, 400)], assumptions=A_WORLD),
-    'C06': lambda ctx: world_check(ctx, rel_C06, [('base', 40, 400), ('relations', 60, 600)], assumptions=A_WORLD),
-    'C07': lambda ctx: world_check(ctx, rel_C07, [('base', 40, 400), ('cache', 60, 600)], assumptions=A_WORLD),
-    'C08': lambda ctx: world_check(ctx, rel_C08, [('base', 40, 400), ('batch', 60, 600)], assumptions=A_WORLD),
-    'C09': lambda ctx: world_check(ctx, rel_C09, [('base', 40, 400), ('locks', 60, 600)], assumptions=A_WORLD),
-    'C10': lambda ctx: world_check(ctx, rel_C10, [('base', 40, 400), ('faults', 60, 600)], assumptions=A_WORLD),
-    'C11': lambda ctx: world_check(ctx, rel_C11, [('events', 100, 1000)], assumptions=A_WORLD),
-    'C15': lambda ctx: world_check(ctx, rel_C15, [('reset', 100, 1000)], assumptions=A_WORLD),
-    'C20': lambda ctx: world_check(ctx, rel_C20, [('base', 40, 400), ('resources', 60, 600)], assumptions=A_WORLD),
+    'C01': W(rel_C01, [('base', 120, 1500), ('spread', 80, 1000)]),
+    'C02': W(rel_C02, [('base', 100, 1500), ('churn', 100, 1000)]),
+    'C03': W(rel_C03, [('base', 100, 1500), ('query', 100, 1000)]),
+    'C04': c04,
+    'C05': W(rel_C05, [('base', 100, 1500), ('relations', 100, 1000)]),
+    'C06': W(rel_C06, [('base', 60, 1000), ('relations', 140, 1500)]),
+    'C07': W(rel_C07, [('base', 60, 1000), ('cache', 140, 1500)], locks=True),
+    'C08': W(rel_C08, [('base', 60, 1000), ('batch', 140, 1500)]),
+    'C09': W(rel_C09, [('base', 60, 1000), ('locks', 140, 1500)], locks=True),
+    'C10': W(rel_C10, [('base', 60, 1000), ('faults', 140, 1500)]),
+    'C11': W(rel_C11, [('events', 200, 2500)]),
+    'C15': W(rel_C15, [('reset', 200, 2500)]),
+    'C20': W(rel_C20, [('base', 60, 1000), ('resources', 140, 1500)]),
 }
